@@ -89,6 +89,34 @@ impl<'a, N: Normalizer> XmlSerializer<'a, N> {
             StartTagOpen(element) => {
                 self.fullname_serializer
                     .push(self.xot.namespace_declarations(node));
+                if self.xot.namespace_for_name(element.name_id) == self.xot.no_namespace()
+                    && self.fullname_serializer.has_default_namespace()
+                {
+                    // an element in no namespace in the scope of a default
+                    // namespace: written unprefixed it would be read back in
+                    // that namespace, so undeclare the default namespace
+                    if self
+                        .xot
+                        .namespaces(node)
+                        .contains_key(self.xot.empty_prefix())
+                    {
+                        // unless the element declares that default namespace
+                        // itself: then there is no way to write its name
+                        return Err(Error::InvalidOperation(
+                            "Cannot serialize an element without namespace that declares a default namespace"
+                                .to_string(),
+                        ));
+                    }
+                    self.fullname_serializer
+                        .add_empty_prefix(self.xot.no_namespace());
+                    return Ok(OutputToken {
+                        space: false,
+                        text: format!(
+                            "<{} xmlns=\"\"",
+                            self.xot.local_name_str(element.name_id)
+                        ),
+                    });
+                }
                 OutputToken {
                     space: false,
                     text: format!(
@@ -138,6 +166,21 @@ impl<'a, N: Normalizer> XmlSerializer<'a, N> {
                     });
                 }
                 // a namespace URI is an attribute value like any other
+                // an inherited default namespace is not repeated on a top
+                // element without namespace: its start tag undeclares it
+                if *prefix_id == self.xot.empty_prefix()
+                    && *namespace_id != self.xot.no_namespace()
+                    && self
+                        .xot
+                        .element(node)
+                        .map(|e| self.xot.namespace_for_name(e.name()) == self.xot.no_namespace())
+                        .unwrap_or(false)
+                {
+                    return Ok(OutputToken {
+                        space: false,
+                        text: "".to_string(),
+                    });
+                }
                 let namespace = serialize_attribute(
                     self.xot.namespace_str(*namespace_id).into(),
                     &self.normalizer,
